@@ -362,6 +362,7 @@ def run_check(prop, engine_name, tier, level, rule, assumptions, components, sel
             tasks.append((engine_name, prop, config, tier, batch_seed, idx, start < k, True))
     ctx = multiprocessing.get_context("fork")
     stopped_early = False
+    died = None
     gc.collect()
     with cf.ProcessPoolExecutor(max_workers=workers, mp_context=ctx) as ex:
         pending = set()
@@ -385,7 +386,7 @@ def run_check(prop, engine_name, tier, level, rule, assumptions, components, sel
                     out = fut.result()
                     _merge(total, out)
         except cf.process.BrokenProcessPool as e:
-            return _worker_died(prop, engine_name, e)
+            died = _worker_died(prop, engine_name, e)
     # ---- determinism self-test: fresh interpreter, other hash seed, other worker count, other scratch
     selftest = {"checked": 0, "mismatches": 0}
     if selftest_n and not os.environ.get("VERIF_NO_SELFTEST"):
@@ -453,12 +454,21 @@ def run_check(prop, engine_name, tier, level, rule, assumptions, components, sel
                 json.dump(rec, fh, indent=1, default=str)
         exit_code = 1
         reported.append({"signature": rec["signature"], "replay": path, "count": len(vs), "detail": rec["detail"]})
+    if died:
+        for c in died["culprits"]:
+            exit_code = 1
+            reported.append({"signature": {"property": prop, "kind": "process_crashed", "site": "?", "shape": []}, "replay": c,
+                             "count": 1, "detail": "executing this plan kills the Python interpreter (crash inside the code "
+                             "under test or a library it calls); the rest of the batch was lost with the worker pool"})
     for what, n in sorted(known_matched.items()):
         print("KNOWN-FINDING: property=%s %s (matched %d runs)" % (prop, what, n))
     for r in reported:
         print("VIOLATION property=%s replay=%s" % (prop, r["replay"]))
         print("  signature=%s count=%d" % (json.dumps(r["signature"]), r["count"]))
         print("  detail=%s" % (str(r["detail"])[:600],))
+    if died and died["error"]:
+        print("HARNESS-ERROR %s" % died["error"])
+        exit_code = 2 if exit_code == 0 else exit_code
     if total["harness_errors"]:
         print("HARNESS-ERROR %d runs failed inside the harness; first: %s" % (
             len(total["harness_errors"]), str(total["harness_errors"][0])[:1500]))
@@ -491,6 +501,7 @@ def run_check(prop, engine_name, tier, level, rule, assumptions, components, sel
         "violations_reported": reported,
         "harness_errors": len(total["harness_errors"]),
         "stopped_early_by_budget": stopped_early,
+        "worker_pool_died": bool(died),
         "workers": workers,
         "hashseed": os.environ.get("PYTHONHASHSEED"),
         "repo": os.environ.get("VERIF_REPO", "/repo"),
@@ -515,7 +526,8 @@ def run_check(prop, engine_name, tier, level, rule, assumptions, components, sel
 
 def _worker_died(prop, engine_name, e):
     """A worker process died.  Find out whether one of the plans in flight kills a fresh interpreter
-    too: then the code under test crashed the process, which is a violation, not a harness error."""
+    too: then the code under test crashed the process, which is a violation, not a harness error.
+    Returns {"culprits": [replay paths], "error": text or None}."""
     import glob
 
     culprits = []
@@ -533,22 +545,19 @@ def _worker_died(prop, engine_name, e):
                "detail": "the interpreter died while executing this plan"}
         with open(path, "w") as f:
             json.dump(rec, f, indent=1, default=str)
-        out = subprocess.run([PY, os.path.join(VERIF, "bin", "check"), prop, "--replay", path, "--json"],
-                             capture_output=True, text=True, timeout=900, env=dict(os.environ, PYTHONHASHSEED="0"))
-        if "kind\": \"process_crashed" in out.stdout or '"kind": "process_crashed"' in out.stdout:
+        hit = False
+        for _attempt in range(3):  # a crash inside a C library need not happen on every execution
+            out = subprocess.run([PY, os.path.join(VERIF, "bin", "check"), prop, "--replay", path, "--json"],
+                                 capture_output=True, text=True, timeout=900, env=dict(os.environ, PYTHONHASHSEED="0"))
+            if '"kind": "process_crashed"' in out.stdout:
+                hit = True
+                break
+        if hit:
             culprits.append(path)
         else:
             os.remove(path)
-    if culprits:
-        for c in culprits:
-            print("VIOLATION property=%s replay=%s" % (prop, c))
-            print("  signature=%s" % json.dumps({"property": prop, "kind": "process_crashed"}))
-            print("  detail=executing this plan kills the Python interpreter (crash inside the code under test or a library it calls)")
-        cleanup_scratch()
-        return 1
-    print("HARNESS-ERROR worker died (timeout or crash) and no plan in flight reproduces it: %s" % e)
-    cleanup_scratch()
-    return 2
+    return {"culprits": culprits,
+            "error": None if culprits else "worker died (timeout or crash) and no plan in flight reproduces it: %s" % e}
 
 
 def _merge(total, out):
